@@ -562,6 +562,34 @@ func compTyped(cfg *otelcol.Config, sec, id string) reflect.Value {
 	return reflect.Value{}
 }
 
+// asDocument prepares an effective-configuration tree for rendering as a
+// document: a typed-nil list or map is an EMPTY list or map (that is how a YAML
+// encoder writes it; encoding/json would write null, which means "not set").
+func asDocument(v any) any {
+	rv := reflect.ValueOf(v)
+	if !rv.IsValid() {
+		return nil
+	}
+	switch rv.Kind() {
+	case reflect.Map:
+		out := map[string]any{}
+		for _, k := range rv.MapKeys() {
+			out[fmt.Sprint(k.Interface())] = asDocument(rv.MapIndex(k).Interface())
+		}
+		return out
+	case reflect.Slice:
+		if rv.Type().Elem().Kind() == reflect.Uint8 {
+			return v
+		}
+		out := make([]any, 0, rv.Len())
+		for i := 0; i < rv.Len(); i++ {
+			out = append(out, asDocument(rv.Index(i).Interface()))
+		}
+		return out
+	}
+	return v
+}
+
 // checkFixedPoint: the effective configuration is itself a configuration
 // document; whoever loads it (marshal -> load) must get, for every written
 // setting, the value the component got.  Opaque settings are exempt (they are
@@ -572,16 +600,36 @@ func checkFixedPoint(c *vt.C, script any, s *Script, l *loaded) *vt.Finding {
 	if l.eff == nil || l.cfg == nil {
 		return nil
 	}
-	r := loadDoc(l.eff, false)
-	if r.panicV != nil {
-		return vt.Failf("panic/load/effective-config", "loading the effective configuration of a valid document panicked: %v\n%s", r.panicV, r.stack)
+	// Each component's effective subtree is loaded again on its own (nop scaffolding around it), so that
+	// one subtree that cannot be loaded again does not hide the others.
+	reload := func(where, sec, id string, body any) (*loaded, *vt.Finding) {
+		doc := scaffold()
+		if sec == secService {
+			if m, ok := body.(map[string]any); ok {
+				if tel, ok := m["telemetry"]; ok {
+					doc[secService].(map[string]any)["telemetry"] = tel
+				}
+			}
+		} else {
+			sm, ok := doc[sec].(map[string]any)
+			if !ok {
+				sm = map[string]any{}
+				doc[sec] = sm
+			}
+			sm[id] = body
+		}
+		r := loadDoc(doc, false)
+		if r.panicV != nil {
+			return nil, vt.Failf("panic/load/effective-config/"+where, "loading the effective configuration of %s again panicked: %v\n%s", where, r.panicV, r.stack)
+		}
+		if r.loadErr != nil {
+			c.Class("fixed-point:effective-config-not-loadable:" + where)
+			noteOnce(c, "effective configuration of "+where+" rejected when loaded again: "+firstLine(lastLine(r.loadErr.Error())))
+			return nil, nil
+		}
+		c.Class("fixed-point:effective-config-loaded-again")
+		return &r, nil
 	}
-	if r.loadErr != nil {
-		c.Class("fixed-point:effective-config-not-loadable")
-		noteOnce(c, "effective configuration rejected when loaded again: "+firstLine(r.loadErr.Error()))
-		return nil
-	}
-	c.Class("fixed-point:effective-config-loaded-again")
 	one := func(k *compKind, t1, t2 reflect.Value, effPrefix []string, ws []Write) *vt.Finding {
 		where := k.name()
 		for _, x := range ws {
@@ -639,6 +687,13 @@ func checkFixedPoint(c *vt.C, script any, s *Script, l *loaded) *vt.Finding {
 					}
 				}
 			}
+			if last(x.P) == "block_on_overflow" && k.byPath[strings.Join(append(append([]string{}, x.P[:len(x.P)-1]...), "blocking"), "::")] != nil {
+				// the effective configuration always carries the deprecated alias `blocking` (false unless written),
+				// and queuebatch.Config.Unmarshal lets a PRESENT alias override block_on_overflow: the effective
+				// configuration shows the written value, it just is not a fixed point of loading (modelled shim)
+				c.Class("fixed-point:skipped-deprecated-alias")
+				continue
+			}
 			for _, p := range pairs {
 				if p.v.K == "opaque" || p.v.K == "omap" {
 					continue
@@ -649,8 +704,12 @@ func checkFixedPoint(c *vt.C, script any, s *Script, l *loaded) *vt.Finding {
 				sig := "fixed-point/" + where + "::" + x.key()
 				if p.effKey != nil && emptyTyped(p.a) {
 					if _, present := effLookup(l.eff, p.effKey); !present {
-						// same root cause as (and already reported by) the effective-configuration check
+						// same root cause as the effective-configuration check, which reported it already
+						// when it is a listed finding (an unlisted one ended the case there)
 						sig = "eff-dropped-zero/" + where + "::" + x.key()
+						if c.IsKnown(sig) {
+							continue
+						}
 					}
 				}
 				got := "nothing (nil section)"
@@ -666,18 +725,51 @@ func checkFixedPoint(c *vt.C, script any, s *Script, l *loaded) *vt.Finding {
 		return nil
 	}
 	for _, comp := range s.Comps {
-		t1, t2 := compTyped(l.cfg, comp.Sec, comp.ID()), compTyped(r.cfg, comp.Sec, comp.ID())
-		if !t1.IsValid() {
+		k := comp.kind()
+		t1 := compTyped(l.cfg, comp.Sec, comp.ID())
+		ev, ok := effLookup(l.eff, []string{comp.Sec, comp.ID()})
+		if !t1.IsValid() || !ok {
 			continue
 		}
-		if !t2.IsValid() {
-			return vt.Failf("fixed-point-topology/"+comp.Sec, "%s %q is missing after loading the effective configuration again", comp.Sec, comp.ID())
+		body := asDocument(ev)
+		if bm, ok := body.(map[string]any); ok && k.name() == "exporters/otlp" && !sectionWritten(comp.W, []string{"batcher"}) {
+			// the deprecated `batcher` section of the otlp exporter marshals its unset sizer as "", which the
+			// loader rejects: an unwritten batcher section is left out (deprecated shim, see NOTES)
+			delete(bm, "batcher")
+			c.Class("fixed-point:unwritten-deprecated-batcher-left-out")
 		}
-		if f := one(comp.kind(), t1, t2, []string{comp.Sec, comp.ID()}, comp.W); f != nil {
+		r, f := reload(k.name(), comp.Sec, comp.ID(), body)
+		if f != nil {
+			return f
+		}
+		if r == nil {
+			continue
+		}
+		t2 := compTyped(r.cfg, comp.Sec, comp.ID())
+		if !t2.IsValid() {
+			return vt.Failf("fixed-point-topology/"+comp.Sec, "%s %q is missing after loading its effective configuration again", comp.Sec, comp.ID())
+		}
+		if f := one(k, t1, t2, []string{comp.Sec, comp.ID()}, comp.W); f != nil {
 			return f
 		}
 	}
+	if len(s.Svc) == 0 {
+		return nil
+	}
+	ev, _ := effLookup(l.eff, []string{secService})
+	r, f := reload(serviceKind.name(), secService, "", asDocument(ev))
+	if f != nil || r == nil {
+		return f
+	}
 	return one(serviceKind, reflect.ValueOf(&l.cfg.Service), reflect.ValueOf(&r.cfg.Service), []string{secService}, s.Svc)
+}
+
+func lastLine(s string) string {
+	s = strings.TrimSpace(s)
+	if i := strings.LastIndexByte(s, '\n'); i >= 0 {
+		s = s[i+1:]
+	}
+	return s
 }
 
 // ---------------------------------------------------------------------------
